@@ -178,6 +178,31 @@ def check_routing(c, repo):
         c.check(isinstance(n.ast, ast.Return), f, k, 'the result of timeout() is returned', kind='ast', tag='timeout-returned')
 
 
+def index_listed_label(test, iv):
+    """'no' when the test is not a comparison of the index variable with a constant; otherwise the outcome ('true'/'false') of
+    the written test on which the marker is LISTED (index -1 excluded, 0 and above included), None when the test draws the line
+    elsewhere.  Decided by evaluating the comparison at -1, 0 and 1, so the spelling (>= 0, > -1, != -1, not ... < 0) is immaterial"""
+    cr, lab = truth(test)
+    cp = compare_parts(cr)
+    if not cp or type(cp[1]) not in (ast.GtE, ast.Gt, ast.NotEq, ast.Lt, ast.LtE, ast.Eq):
+        return 'no'
+    l, op, r = cp
+    if is_name(l, iv) and isinstance(const_value(r, None), int):
+        k, flip = const_value(r, None), False
+    elif is_name(r, iv) and isinstance(const_value(l, None), int):
+        k, flip = const_value(l, None), True
+    else:
+        return 'no'
+    import operator
+    fn = {ast.GtE: operator.ge, ast.Gt: operator.gt, ast.NotEq: operator.ne, ast.Lt: operator.lt, ast.LtE: operator.le, ast.Eq: operator.eq}[type(op)]
+    vals = [(fn(k, v) if flip else fn(v, k)) for v in (-1, 0, 1)]
+    if vals == [False, True, True]:
+        return lab
+    if vals == [True, False, False]:
+        return other(lab)
+    return None
+
+
 def check_outcomes(c, repo):
     for meth, cls, idxattr, other_cls, other_idx in (('eof', 'EOF', 'eof_index', 'TIMEOUT', 'timeout_index'),
                                                     ('timeout', 'TIMEOUT', 'timeout_index', 'EOF', 'eof_index')):
@@ -206,17 +231,9 @@ def check_outcomes(c, repo):
         c.check(ia[0].ast.value.attr == idxattr and ctext(ia[0].ast.value.value, f) == 'self.searcher', f, ia[0].ast,
                 '%s() consults %s of its own searcher (not the other marker\'s field)' % (meth, idxattr),
                 witness=norm(ia[0].ast), kind='ast', tag='own-index')
-        tests = find_test_nodes(f, lambda t: compare_parts(t) is not None and is_name(compare_parts(t)[0], iv)
-                                and isinstance(compare_parts(t)[1], (ast.GtE, ast.Gt, ast.NotEq, ast.Lt, ast.Eq)))
+        tests = find_test_nodes(f, lambda t: index_listed_label(t, iv) != 'no')
         c.need(len(tests) == 1, '%s(): test on the index not found' % meth)
-        cp = compare_parts(tests[0].ast)
-        # which edge means "listed"?
-        k = const_value(cp[2], None)
-        listed_edge = None
-        if isinstance(cp[1], ast.GtE) and k == 0 or isinstance(cp[1], ast.Gt) and k == -1 or isinstance(cp[1], ast.NotEq) and k == -1:
-            listed_edge = 'true'
-        elif isinstance(cp[1], ast.Lt) and k == 0 or isinstance(cp[1], ast.Eq) and k == -1:
-            listed_edge = 'false'
+        listed_edge = index_listed_label(tests[0].ast, iv)
         c.check(listed_edge is not None, f, tests[0].ast, 'the marker counts as listed exactly when its index >= 0 (index 0 included)',
                 witness=norm(tests[0].ast), kind='alg', tag='listed-test')
         if listed_edge is None:
